@@ -109,7 +109,10 @@ package module
 //@   ensures result.SMTPOpts == msgMeta.SMTPOpts && result.Conn == msgMeta.Conn && result.TLSRequireOverride == msgMeta.TLSRequireOverride
 //@   ensures (result.OriginalRcpts == nil) == (msgMeta.OriginalRcpts == nil)
 //@   ensures msgMeta.OriginalRcpts != nil ==> result.OriginalRcpts != msgMeta.OriginalRcpts && fresh(result.OriginalRcpts)
-//@   ensures forall k string :: has(result.OriginalRcpts, k) == has(msgMeta.OriginalRcpts, k) && result.OriginalRcpts[k] == msgMeta.OriginalRcpts[k]
+//@   ensures forall k string :: has(result.OriginalRcpts, k) == has(msgMeta.OriginalRcpts, k) && (has(msgMeta.OriginalRcpts, k) ==> result.OriginalRcpts[k] == msgMeta.OriginalRcpts[k])
+//@   loop 0 invariant cpy.OriginalRcpts != nil && cpy.OriginalRcpts != msgMeta.OriginalRcpts && msgMeta.OriginalRcpts != nil
+//@   loop 0 invariant forall k string :: iterpos()[k] ==> has(cpy.OriginalRcpts, k) && cpy.OriginalRcpts[k] == msgMeta.OriginalRcpts[k]
+//@   loop 0 invariant forall k string :: has(cpy.OriginalRcpts, k) ==> has(msgMeta.OriginalRcpts, k)
 
 // GenerateMsgID reads the system random source; it changes nothing the contracts talk about.
 //@ func GenerateMsgID
